@@ -139,7 +139,7 @@ func dischargeFunc(sv *Solver, fr *FuncResult, par int) map[string]*oblStatus {
 		groups := map[string][]*Obligation{}
 		var order []string
 		for _, o := range fr.Obls {
-			if o.Reach || o.Batch == "" {
+			if o.Reach || o.Batch == "" || sv.noBatch {
 				continue
 			}
 			if fr.Contract != nil {
@@ -480,6 +480,9 @@ func cmdCheck(args []string) int {
 	}
 	outDir := filepath.Join(verifRoot, "out", fmt.Sprintf("%s.%d", pid, os.Getpid()))
 	sv := newSolver(outDir, quickT, longT)
+	// thorough: every obligation instance gets its own query (no batching of a return point's obligations), longer
+	// solver timeouts, and the larger bounds of the bounded stand-ins
+	sv.noBatch = tier == "thorough"
 	defer os.RemoveAll(outDir)
 
 	var baseline map[string][]string
